@@ -28,7 +28,7 @@ func registerAll() {
 	// ---------------------------------------------------------------- pipelines, concurrent writers (C05, C06, C08, C09)
 	// two requests in one segment, both handlers wait until both have started, then write concurrently
 	regSpec(&Spec{
-		Name: "pipe2-concurrent-writers", Props: []string{"C05", "C06", "C08", "C09", "C12", "C07", "C03"},
+		Name: "pipe2-concurrent-writers", Props: []string{"C05", "C06", "C08", "C09", "C12", "C07", "C03", "C04"},
 		Conns: []ConnSpec{{
 			Ops:    []string{"bind", "search"},
 			H:      map[int]*HSpec{1: {WaitStarted: 2}, 2: {WaitStarted: 2, Frames: []int{10, 5000}}},
@@ -38,7 +38,7 @@ func registerAll() {
 	})
 	// same, the client reads to EOF after an Unbind-less close by the server at Stop
 	regSpec(&Spec{
-		Name: "pipe2-large-frames-backpressure", Props: []string{"C05", "C11"},
+		Name: "pipe2-large-frames-backpressure", Props: []string{"C05", "C11", "C04"},
 		Conns: []ConnSpec{{
 			Ops:    []string{"search", "search"},
 			H:      map[int]*HSpec{1: {WaitStarted: 2, Frames: []int{70000}}, 2: {WaitStarted: 2, Frames: []int{5000}}},
